@@ -217,6 +217,9 @@ type NodeOpt struct {
 	Bind, Advertise string
 	Codec           vivid.Codec
 	ReconnectLimit  int // -1 = library default
+	// RawLimit: ReconnectLimit (any value, also a negative one: documented as "less than 1 means no retry") is set
+	// through the public options struct instead of the option function, which ignores negative values
+	RawLimit bool
 }
 
 // StartNode starts a system with remoting, a sink ("/sink") and an event log.
@@ -225,7 +228,11 @@ func StartNode(o NodeOpt) (*Node, error) {
 	if o.Codec != nil {
 		opts = append(opts, vivid.WithActorSystemCodec(o.Codec))
 	}
-	if o.ReconnectLimit >= 0 {
+	if o.RawLimit {
+		ro := vivid.NewActorSystemRemotingOptions()
+		ro.ReconnectLimit = o.ReconnectLimit
+		opts = append(opts, vivid.WithActorSystemRemotingOptions(ro))
+	} else if o.ReconnectLimit >= 0 {
 		opts = append(opts, vivid.WithActorSystemRemotingOption(vivid.WithActorSystemRemotingReconnectLimit(o.ReconnectLimit)))
 	}
 	n := &Node{Bind: o.Bind, Addr: o.Advertise, Sink: &Sink{}, Events: &EvLog{}}
